@@ -28,6 +28,7 @@ type concCase struct {
 	Victim  int     `json:"victim"`
 	K       int     `json:"pause_before_lock_index"`
 	Order   []int   `json:"order_of_others"` // threads run while the victim is paused
+	Debug   bool    `json:"debug_logging,omitempty"`
 	Chain   []int   `json:"chain,omitempty"` // [a, b]: thread b is the continuation of thread a (same goroutine in the daemon): b's calls come after all of a's
 }
 
@@ -49,8 +50,8 @@ type concRunner struct {
 	bounds []time.Time
 }
 
-func newConcRunner(threads [][]HOp) *concRunner {
-	h := History{Budget: -1, Plans: map[string]SessPlan{}}
+func newConcRunner(threads [][]HOp, debug ...bool) *concRunner {
+	h := History{Budget: -1, Plans: map[string]SessPlan{}, Debug: len(debug) > 0 && debug[0]}
 	for _, t := range threads {
 		h.Ops = append(h.Ops, t...)
 	}
@@ -198,7 +199,7 @@ type concResult struct {
 
 func runConc(cc concCase) (concResult, error) {
 	var res concResult
-	c := newConcRunner(cc.Threads)
+	c := newConcRunner(cc.Threads, cc.Debug)
 	ctl := hutil.NewCtl()
 	sm, pm := sessiontracker.VerifMaps(c.r.tr)
 	ctl.Name(sm, "sessions")
@@ -533,7 +534,7 @@ func concMain(out string, n int, seed uint64, prop string) {
 						}
 					}
 					for k := 0; k < 12; k++ {
-						cc := concCase{Threads: threads, Pre: pre, Victim: victim, K: k, Order: ord, Chain: chain}
+						cc := concCase{Threads: threads, Pre: pre, Victim: victim, K: k, Order: ord, Chain: chain, Debug: progs%3 == 0}
 						if b, err := json.Marshal(map[string]any{"conc": cc}); err == nil {
 							_ = os.WriteFile(inflightPath(out), b, 0o644)
 						}
